@@ -32,8 +32,8 @@ fn run_final(ops: &[Op], orig_index: &[usize], rho_back: Option<Vec<(u32, u32)>>
     }
     // optionally a few rewrite iterations with slot-name-independent rules (the same in every run that is compared)
     if rewrite > 0 {
-        let names: [&[&str]; 4] = [&["add-comm", "mul-comm", "add-assoc"], &["k-def", "h-def"], &["sum-swap", "add-comm", "k-def"], &["var-factor", "add-comm"]];
-        let rws: Vec<Rewrite<Main>> = names[(rewrite - 1) % 4].iter().filter_map(|n| POOL.iter().find(|r| r.0 == *n)).map(|r| mk_rule(r)).collect();
+        let names: [&[&str]; 5] = [&["add-comm", "mul-comm", "add-assoc"], &["k-def", "h-def"], &["sum-swap", "add-comm", "k-def"], &["var-factor", "add-comm"], &["mul-comm", "factor"]];
+        let rws: Vec<Rewrite<Main>> = names[(rewrite - 1) % 5].iter().filter_map(|n| POOL.iter().find(|r| r.0 == *n)).map(|r| mk_rule(r)).collect();
         for _ in 0..2 {
             if eg.total_number_of_nodes() > 120 {
                 break;
@@ -249,7 +249,24 @@ fn rename_case(rng: &mut Rng) -> Case {
     // one case in six: terms `p*q + r` over slot names, rewritten with a rule whose pattern has free slots (one of them
     // twice): which matches exist must not depend on how the names sort
     let slotarith = rng.chance(1, 6);
-    let (ops, stream) = if slotarith {
+    // one case in eight: `p*q + r*p` (the common factor at any of the four positions) under commutativity and the slot-free,
+    // non-linear `factor` rule — once the products are symmetric, whether the rule finds its instance must not depend on
+    // which of the variants of the sum node is the stored one, i.e. on how the names sort
+    let symfactor = !slotarith && rng.chance(1, 7);
+    let (ops, stream) = if symfactor {
+        let var = |c: u32| ATerm { v: 2, fields: vec![CField::Slot(c)], children: vec![] };
+        let bin = |v: usize, a: ATerm, b: ATerm| ATerm { v, fields: vec![CField::App, CField::App], children: vec![a, b] };
+        let mut nm: Vec<u32> = vec![4, 8, 2, 6];
+        rng.shuffle(&mut nm);
+        let (p, q, r) = (nm[0], nm[1], nm[2]);
+        let m1 = if rng.chance(1, 2) { bin(5, var(p), var(q)) } else { bin(5, var(q), var(p)) };
+        let m2 = if rng.chance(1, 2) { bin(5, var(p), var(r)) } else { bin(5, var(r), var(p)) };
+        let mut ops = vec![Op::Add(bin(4, m1, m2))];
+        if rng.chance(1, 2) {
+            ops.push(Op::Add(bin(5, var(p), bin(4, var(q), var(r)))));
+        }
+        (ops, "symfactor")
+    } else if slotarith {
         let k = rng.range(2, 4);
         let mut ops: Vec<Op> = (0..k).map(|_| Op::Add(gen_var_factor_term(rng))).collect();
         if rng.chance(1, 3) {
@@ -314,7 +331,7 @@ fn rename_case(rng: &mut Rng) -> Case {
     }
     let rs = runs.clone();
     // a third of the cases continue with two rewrite iterations (arithmetic start terms make the rules fire)
-    let rewrite = if slotarith { 4 } else if rng.chance(1, 3) { 1 + rng.below(3) } else { 0 };
+    let rewrite = if symfactor { 5 } else if slotarith { 4 } else if rng.chance(1, 3) { 1 + rng.below(3) } else { 0 };
     let r = in_fresh_thread(move || {
         intern_names();
         rs.iter().map(|(_, ops, back)| run_final(ops, &idx, back.clone(), rewrite)).collect::<Vec<_>>()
